@@ -21,6 +21,11 @@ import (
 func Inputs(t *sut.Target, s, pairCap int, f func(recs []refpq.Val, batches []int, page int)) {
 	root := t.Schema()
 	all := gen.Structures(root, s, 2)
+	for len(all) > 600 && s > 3 {
+		// keep wide shapes affordable: lower the node bound for them
+		s--
+		all = gen.Structures(root, s, 2)
+	}
 	for _, st := range all {
 		fl := &gen.Filler{}
 		r := gen.Fill(root, st, fl)
